@@ -44,12 +44,13 @@ def plan(tier, seed):
         inst += [("u8", 1, 0, 2, 2), ("u8", 0, 1, 2, 2), ("u16", 1, 1, 2, 2),
                  ("u8", 2, 2, 4, 4), ("u8", 1, 1, 4, 2), ("u8", 0, 0, 3, 3), ("u16", 0, 0, 2, 2), ("u16", 2, 0, 4, 2),
                  ("u16", 0, 1, 1, 2), ("u8", 1, 0, 4, 3)]
-    for (T, sx, sy, w, h) in inst:
+    for k, (T, sx, sy, w, h) in enumerate(inst):
         n = "k_c07_dec_%s_ss%d%d_%dx%d" % (T, sx, sy, w, h)
-        txt += geom.decode_harness(T, sx, sy, w, h, n, 8 if T == "u8" else 10, symbolic_content=(T == "u16"), pointwise=False)
+        # U and V planes get different strides; which one is wider alternates (a V stride smaller than U's is what exposes a shared-stride bug as an out-of-bounds read)
+        txt += geom.decode_harness(T, sx, sy, w, h, n, 8 if T == "u8" else 10, symbolic_content=(T == "u16"), pointwise=False, ue=(k + 1) % 2, ve=k % 2)
         hs.append(dict(name=n, family="geom-decode", timeout=1500 if thorough else 900, mem_gb=14,
                        obligation="every accepted frame decodes with all get_unchecked accesses inside the plane buffers",
-                       sym="luma %dx%d at a symbolic origin in a %dx%d buffer; both chroma windows (size, origin) symbolic in their buffers; subsampling (%d,%d); %s%s" % (
+                       sym="luma %dx%d at a symbolic origin in a %dx%d buffer; both chroma windows (size, origin) symbolic in their buffers, U and V buffers of different strides; subsampling (%d,%d); %s%s" % (
                            w, h, w + 1, h + 1, sx, sy, T, ", symbolic samples" if T == "u16" else ", samples concrete (addresses do not depend on them)"),
                        covers=["accepted", "decoded"], unwind_rules=geom.decode_rules(w, h), replay=geom_replay,
                        geom=dict(kind="decode")))
